@@ -246,7 +246,7 @@ Theorem C06_partial_thm :
     let hdr := enc_header (roots_opt (cs_nil x) (cs_roots x)) 1 in
     hdrdec hdr = Some (cs_roots x, 1) ->
     (exists r, hdrdec pragma_body = Some (r, 2)) ->
-    blen hdr <= w_maxh o -> blen hdr <= default_maxh -> w_maxcid o <= max_digest_alloc ->
+    blen hdr <= w_maxh o -> w_maxcid o <= max_digest_alloc ->
     match cs_kind x with KStorage false => negb (w_v1 o) | _ => false end = false ->
     51 + w_dpad o + w_ipad o + ld_size (blen hdr)
       + blen (enc_sections (concat (map fst (cs_pre x)) ++ cs_puts x)) < two63 ->
@@ -262,7 +262,7 @@ Theorem C06_partial_thm :
        forall more, 51 + w_dpad o + w_ipad o + ws_pos sj + blen (enc_sections more) < two63 ->
          ws_file (fst (fe_finalize (run_puts s1 more))) = ws_file (fst (fe_finalize (run_puts sj more)))).
 Proof.
-  intros hdrdec x f0 start acked_pre k t o hdr H1 H2 H3 H4 H5 H6 H7 Hst Hg.
+  intros hdrdec x f0 start acked_pre k t o hdr H1 H2 H3 H5 H6 H7 Hst Hg.
   assert (Hpar : params_ok hdrdec o (cs_nil x) (cs_roots x)) by (constructor; assumption).
   assert (Hb : budget o (cs_nil x) (cs_roots x) [] (concat (map fst (cs_pre x)) ++ cs_puts x)).
   { unfold budget. change (enc_sections []) with (@nil byte). rewrite blen_nil. unfold hsz, ResumeInv.hdr. fold hdr. lia. }
@@ -280,7 +280,7 @@ Theorem C06_header_complete_thm :
     let hdr := enc_header (roots_opt (cs_nil x) (cs_roots x)) 1 in
     hdrdec hdr = Some (cs_roots x, 1) ->
     (exists r, hdrdec pragma_body = Some (r, 2)) ->
-    blen hdr <= w_maxh o -> blen hdr <= default_maxh -> w_maxcid o <= max_digest_alloc ->
+    blen hdr <= w_maxh o -> w_maxcid o <= max_digest_alloc ->
     match cs_kind x with KStorage false => negb (w_v1 o) | _ => false end = false ->
     51 + w_dpad o + w_ipad o + ld_size (blen hdr)
       + blen (enc_sections (concat (map fst (cs_pre x)) ++ cs_puts x)) < two63 ->
@@ -294,7 +294,7 @@ Theorem C06_header_complete_thm :
        forall more, 51 + w_dpad o + w_ipad o + ws_pos sj + blen (enc_sections more) < two63 ->
          ws_file (fst (fe_finalize (run_puts s1 more))) = ws_file (fst (fe_finalize (run_puts sj more))).
 Proof.
-  intros hdrdec x f0 start acked_pre k t o hdr H1 H2 H3 H4 H5 H6 H7 Hst Hk.
+  intros hdrdec x f0 start acked_pre k t o hdr H1 H2 H3 H5 H6 H7 Hst Hk.
   assert (Hpar : params_ok hdrdec o (cs_nil x) (cs_roots x)) by (constructor; assumption).
   assert (Hb : budget o (cs_nil x) (cs_roots x) [] (concat (map fst (cs_pre x)) ++ cs_puts x)).
   { unfold budget. change (enc_sections []) with (@nil byte). rewrite blen_nil. unfold hsz, ResumeInv.hdr. fold hdr. lia. }
